@@ -442,8 +442,9 @@ def _check(prop, tier, replay):
         'wall_s': round(time.time() - t0, 2),
         'violations': sum(1 for l in out_lines if l.startswith('VIOLATION')),
     }
-    os.makedirs(os.path.join(ROOT, 'evidence'), exist_ok=True)
-    json.dump(ev, open(os.path.join(ROOT, 'evidence', f'{prop}.json'), 'w'), indent=1, default=str)
+    if not os.environ.get('VERIF_NO_EVIDENCE'):
+        os.makedirs(os.path.join(ROOT, 'evidence'), exist_ok=True)
+        json.dump(ev, open(os.path.join(ROOT, 'evidence', f'{prop}.json'), 'w'), indent=1, default=str)
 
     print(f'{prop} [{tier}] seed={seed}: theorems {len(discharged)}/{len(theorems)} discharged; '
           f'{len(cases)} cases ({len(distinct)} distinct non-trivial), {compared} compared with the model; '
